@@ -305,6 +305,24 @@ func runItem(w *hx.Worker, sh *shared, it genfam.Item, onlyInput *string) {
 				w.Violate(hx.Violation{Key: "generated " + key(it, in), Class: "position-or-text", Detail: map[string]any{"what": d}})
 				continue
 			}
+			// through LexBytes, with the caller re-using its buffer once lexing is over: the tokens handed
+			// out are still the bytes of the input
+			if bd, ok := gen.(lexer.BytesDefinition); ok && len(in) > 0 {
+				buf := []byte(in)
+				if lx, err := bd.LexBytes("f.txt", buf); err == nil {
+					toks, err := lexer.ConsumeAll(lx)
+					for i := range buf {
+						buf[i] = 0xff
+					}
+					if err == nil {
+						rb := lexdrive.Run{Toks: toks[:len(toks)-1], EOF: &toks[len(toks)-1]}
+						if d := lexdrive.CheckLossless(in, "f.txt", rb, noElided, false); d != "" {
+							w.Violate(hx.Violation{Key: "generated " + key(it, in) + " :: LexBytes, buffer reused", Class: "position-or-text", Detail: map[string]any{"what": d}})
+							continue
+						}
+					}
+				}
+			}
 			w.DistinctS(fmt.Sprint(r.Toks))
 			if len(in) >= 3 && strings.Contains(in, "\n") {
 				w.Sample(map[string]any{"generated_lexer_for": it.Def.String(), "input": in, "tokens": fmt.Sprintf("%#v", r.Toks)})
